@@ -220,6 +220,8 @@ func enumShapeRaw(j int) *gen.Cfg {
 		a.Tags = []gen.Tag{{Name: "t"}}
 		c.Services = []gen.Svc{a, node("b", sc[1]), node("c", sc[2])}
 		c.Decorators = []gen.Dec{{Tag: "t", Fn: fx + ".Decorate", Args: []gen.Arg{ref("b")}}, {Tag: "t", Fn: fx + ".Decorate", Args: []gen.Arg{ref("c")}}}
+	case 12: // a diamond with an onlooker: b and the onlooker "a0" (sorting first, never scoped) both reach x, x reaches c; a0 mentions x before b
+		c.Services = []gen.Svc{node("a0", "", ref("x"), ref("b")), node("b", sc[0], ref("x")), node("x", sc[1], ref("c")), node("c", sc[2])}
 	case 11: // a decorator on the tag "*", which no service can carry: it is never applied, a depends on nothing
 		c.Services = []gen.Svc{node("a", sc[0]), node("b", sc[1], ref("c")), node("c", sc[2])}
 		c.Decorators = []gen.Dec{{Tag: "*", Fn: fx + ".Decorate", Args: []gen.Arg{ref("b")}}}
@@ -257,7 +259,7 @@ func enumShapeRaw(j int) *gen.Cfg {
 const EnumFamily = NShapes * 64
 
 // NShapes is the number of shapes of the family.
-const NShapes = 12
+const NShapes = 13
 
 // enumCfg15 is the small configuration whose histories C15 enumerates exhaustively.
 func enumCfg15() *gen.Cfg {
